@@ -1124,6 +1124,35 @@ def add_alias_gadget(rnd, spec):
     spec.setdefault('gadget', []).extend([f1, f2, k2])
 
 
+def add_nested_array_gadget(rnd, spec):
+    """an array formula over an intersection whose cells are the cells of another array formula
+    over an intersection (rows 75-76 of the first formula sheet): values reach the outer array
+    through range nodes only, the member cells in between are never calculated on their own"""
+    sheet = next(s_ for s_ in spec['sheets'] if s_ != spec.get('data_sheet'))
+    cells = spec['cells']
+
+    def at(r, c):
+        return mk(sheet, r, c)
+    for r in (75, 76):
+        for c in (1, 2, 3, 5):
+            cells.append({'a': at(r, c), 'v': rnd.choice((1, 2, -5.6, 1.5, 0.1, 3))})
+    inner = [at(75, 2), at(76, 2)]
+    decl1 = [at(r, c) for r in (75, 76) for c in (1, 3)]
+    k = rnd.choice((2, 0.5, -1))
+    for r in (75, 76):
+        cells.append({'a': at(r, 4), 'cse': f'{sheet}!D75:D76', 'f': f'=(A75:B76 B75:C76)*{k}',
+                      'p': list(inner), 'd': list(decl1)})
+    mid = [at(75, 4), at(76, 4)]
+    decl2 = [at(r, c) for r in (75, 76) for c in (3, 5)]
+    for r in (75, 76):
+        cells.append({'a': at(r, 7), 'cse': f'{sheet}!G75:G76', 'f': '=(C75:D76 D75:E76)*-1',
+                      'p': list(mid), 'd': list(decl2)})
+    out = [at(75, 8), at(76, 8)]
+    cells.append({'a': out[0], 'f': '=G75+0', 'p': [at(75, 7)], 'd': []})
+    cells.append({'a': out[1], 'f': '=SUM(G75:G76)', 'p': [at(75, 7), at(76, 7)], 'd': []})
+    spec.setdefault('gadget', []).extend(out + [at(76, 7)])
+
+
 def add_compare_gadget(rnd, spec):
     """operators applied to a whole range whose cells hold numbers and logicals that are equal
     in Python and not in Excel (1 / TRUE, 0 / FALSE); rows 70-72 of the first formula sheet"""
